@@ -213,6 +213,10 @@ class BuiltinMixin:
             return out
         raise Unsupported(f'sorted of {v.ty}')
 
+    def b_iter(self, args, kw, st, exits, line):
+        # a fresh iterator over a sequence, only ever consumed by next(): modelled by the sequence itself
+        return self.seq_of(args[0], st)
+
     def b_next(self, args, kw, st, exits, line):
         # next() on a generator modelled as a sequence: its first element, StopIteration when empty
         s_ = self.seq_of(args[0], st)
@@ -496,6 +500,27 @@ class BuiltinMixin:
             pos = z3.IndexOf(recv.t, z3.Unit(x.t), 0)
             n = z3.Length(recv.t)
             nv = V(ty, z3.Concat(z3.Extract(recv.t, 0, pos), z3.Extract(recv.t, pos + 1, n - pos - 1)))
+            if not self.spec_mode:
+                # name the new list and state its elements pointwise (consequences of the definition above; the sequence
+                # solver does not derive them under quantified invariants)
+                nl = fresh(ty, 'removed')
+                st.assume(nl.t == nv.t)
+                j = z3.Int(fresh_name('j'))
+                why = 'list.remove(x): first occurrence dropped, the other elements keep their order (CPython list semantics)'
+                st.assume(z3.And(pos >= 0, pos < n, recv.t[pos] == x.t, z3.Length(nl.t) == n - 1))
+                st.assume(z3.ForAll([j], z3.Implies(z3.And(j >= 0, j < pos), z3.And(nl.t[j] == recv.t[j], recv.t[j] != x.t)),
+                                    patterns=[nl.t[j]]))
+                st.assume(z3.ForAll([j], z3.Implies(z3.And(j >= pos, j < n - 1), nl.t[j] == recv.t[j + 1]), patterns=[nl.t[j]]))
+                y = z3.Const(fresh_name('y'), ty.elem.sort())
+                st.assume(z3.ForAll([y], z3.Implies(z3.Contains(nl.t, z3.Unit(y)), z3.Contains(recv.t, z3.Unit(y))),
+                                    patterns=[z3.Contains(nl.t, z3.Unit(y))]))
+                st.assume(z3.ForAll([y], z3.Implies(z3.And(y != x.t, z3.Contains(recv.t, z3.Unit(y))), z3.Contains(nl.t, z3.Unit(y))),
+                                    patterns=[z3.Contains(recv.t, z3.Unit(y))]))
+                # x is still a member only if it occurred twice: a second position (witness constant)
+                q = z3.Int(fresh_name('q'))
+                st.assume(z3.Implies(z3.Contains(nl.t, z3.Unit(x.t)), z3.And(q >= 0, q < n, q != pos, recv.t[q] == x.t)))
+                self.assumptions_used['list.remove'] = why
+                nv = nl
             for s2 in writeback(nv):
                 yield s2, NONE_V
             return
